@@ -195,6 +195,20 @@ theorem raw_literals_guarded :
       reaches Gen.GuardGraph.edges o Gen.GuardGraph.limbsAssert = true := by
   decide +kernel
 
+/-- **(G)** no other place in `src/` builds a `Uint` from the bare struct literal (list re-extracted on every run): the
+    closure argument covers every primitive construction site. -/
+theorem no_raw_literal_elsewhere : Gen.GuardGraph.rawLiteralSitesOutside = [] := by
+  decide +kernel
+
+/-- **(G)** `bytemuck::Pod` (every bit pattern is a value, no constructor runs) is implemented only for widths that
+    fill their limbs exactly, where every bit pattern is canonical (`impl_pod!` list re-extracted on every run). -/
+theorem pod_pairs_aligned : ∀ p ∈ Gen.GuardGraph.podPairs, p.1 = 64 * p.2 := by
+  decide +kernel
+
+/-- **(G)** and `impl_pod!` is the only place that implements `Pod`/`AnyBitPattern` for `Uint`/`Bits`. -/
+theorem pod_impl_only_in_macro : Gen.GuardGraph.podImplSites = 1 := by
+  decide +kernel
+
 /-- the checker really discriminates: in the pinned tree's graph (`masked` did not mention `Self::LIMBS`)
     `MAX → from_limbs_unmasked → masked` did not reach the assertion. -/
 theorem guard_graph_detects_old_defect :
